@@ -160,6 +160,7 @@ static void stage_corpus(Run &R) {
     }
 }
 
+#ifndef VF_FUZZ
 int main(int argc, char **argv) {
     Run R; R.a = parse_args(argc, argv); R.prop = "C05";
     install_death(R.a);
@@ -180,3 +181,7 @@ int main(int argc, char **argv) {
     for (int m = 0; m < 4; m++) delete OBJ[m];
     return rcode;
 }
+#else
+VF_FUZZ_TARGET("C05", [](Run &) { for (int m = 0; m < 4; m++) { OBJ[m] = new Obj(A); if (OBJ[m]->configure(m, 1) != 0) return false; } return true; },
+    [](Run &R, const uint8_t *d, size_t n) -> std::optional<Failure> { Bytes x = fuzz_bytes(d, n); if (x.empty()) return std::nullopt; if (x[0] != '[' && (n % 4) != 0) x = "[" + x; R.sample("fuzz", show(x.substr(0, 80)), 4); return check_one(R, x); })
+#endif
